@@ -1,0 +1,15 @@
+//go:build verif
+
+// Contracts for package astdiff, checked by /verif/gvc (comment-only file).
+
+package astdiff
+
+//@ func Before(n, comments) (s)
+//@   trusted API-level summary (reflection walk building a fresh snapshot tree)
+//@   assigns nothing
+//@   ensures s != nil
+
+//@ func (s *Snapshot) Diff(n, cl) (s2)
+//@   trusted API-level summary; reports regions to cl (go-intervals sets: dependency state, not modelled) and builds a fresh snapshot
+//@   assigns nothing
+//@   ensures s2 != nil
